@@ -915,6 +915,95 @@ def stream_robust(ctx):
         except Exception as e:
             s.violate('%s: second call raised %s: %s' % (name, type(e).__name__, e), c, {})
 
+    # ---- (T) typed inputs under the DENSE reconstruction oracles (eigenvectors must survive the input's dtype)
+    acc_lr, acc_ob = [], []
+    for k in ARRAY_KINDS:
+        try:
+            low_rank.low_rank_two_body_decomposition(typed_real(t0, k), final_rank=4, spin_basis=False)
+            acc_lr.append(k)
+        except Exception:
+            s.count('type-rejected:low_rank(full):%s' % k)
+        try:
+            low_rank.prepare_one_body_squared_evolution(typed_real(o0, k), spin_basis=False)
+            acc_ob.append(k)
+        except Exception:
+            s.count('type-rejected:prepare_one_body_squared_evolution:%s' % k)
+    for t in range(N):
+        n = rng.choice([2, 2, 3])
+        spin = rng.random() < 0.5
+        two = sym8int(n)                          # integer-valued, eight-fold symmetric, generically non-diagonal
+        if not two.any():
+            continue
+        h = spinorb_from_spatial(np.zeros((n, n)), two)[1] if spin else two
+        if acc_lr:
+            k = rng.choice(acc_lr)
+            ht = typed_real(h, k)
+            c = {'fn': 'low_rank_two_body_decomposition(dense oracle)', 'type': k, 'spin_basis': spin, 'n_spatial': n,
+                 'two_body_integrals': two.tolist()}
+            s.case(c)
+            s.count('dense:low_rank:' + k)
+            h0 = ht.copy()
+            try:
+                lam, sq, corr, tv = low_rank.low_rank_two_body_decomposition(ht, final_rank=n * n, spin_basis=spin)
+                Href = dense_two(h) if spin else molecular_dense(0.0, np.zeros((n, n)), 2 * h)
+                R = dense_one_c(corr)
+                for l in range(len(lam)):
+                    O = dense_one_c(sq[l])
+                    R = R + lam[l] * O @ O
+                tol = (SINGLE_TOL if k == 'float32' else TOL) * max(1.0, err(Href))
+                s.float_comparisons += 2
+                if err(Href - R) > tol:
+                    s.violate('low_rank_two_body_decomposition(%s tensor): full-rank terms + correction do not reconstruct the '
+                              'two-body operator (max deviation %.3g)' % (k, err(Href - R)), c, {})
+                corr2, chem = low_rank.get_chemist_two_body_coefficients(ht, spin_basis=spin)
+                # chemist form as an operator: sum g a+_{p s} a_{q s} a+_{r t} a_{s t} + correction
+                a_, ad_ = ladder(2 * n)
+                E = e1(2 * n)
+                Rc = dense_one_c(corr2)
+                for p_, q_, r_, s_ in itertools.product(range(n), repeat=4):
+                    g = chem[p_, q_, r_, s_]
+                    if g != 0:
+                        for sg in range(2):
+                            for tt_ in range(2):
+                                Rc = Rc + g * E[2 * p_ + sg, 2 * q_ + sg] @ E[2 * r_ + tt_, 2 * s_ + tt_]
+                if err(Href - Rc) > tol:
+                    s.violate('get_chemist_two_body_coefficients(%s tensor): chemist form + correction is not the two-body '
+                              'operator (max deviation %.3g)' % (k, err(Href - Rc)), c, {})
+                if not np.array_equal(ht, h0) or ht.dtype != h0.dtype:
+                    s.violate('low_rank / chemist routines modified their tensor argument', c, {})
+            except Exception as e:
+                s.violate('low_rank_two_body_decomposition(%s tensor) raised %s: %s' % (k, type(e).__name__, e), c, {})
+        if acc_ob:
+            k = rng.choice(acc_ob)
+            m = rng.choice([2, 3])
+            hm = intvals((m, m))
+            hm = hm + hm.T
+            hm[0, m - 1] = hm[m - 1, 0] = rng.choice([1, 2, -1])        # never diagonal: non-trivial eigenvectors
+            spin1 = rng.random() < 0.5
+            hs = np.kron(hm, np.eye(2)) if spin1 else hm
+            hst = typed_real(hs, k)
+            c = {'fn': 'prepare_one_body_squared_evolution(dense oracle)', 'type': k, 'spin_basis': spin1,
+                 'one_body_matrix': hs.tolist()}
+            s.case(c)
+            s.count('dense:one_body_squared:' + k)
+            try:
+                V, Rm_ = low_rank.prepare_one_body_squared_evolution(hst, spin_basis=spin1)
+                mm = hs.shape[0]
+                a_, ad_ = ladder(mm)
+                H1 = dense_one(hs)
+                b = [sum(Rm_[p_, q_] * a_[q_] for q_ in range(mm)) for p_ in range(mm)]
+                nb = [x.conj().T @ x for x in b]
+                rhs = sum(V[p_, q_] * nb[p_] @ nb[q_] for p_ in range(mm) for q_ in range(mm))
+                tol = (SINGLE_TOL if k == 'float32' else TOL) * max(1.0, err(H1 @ H1))
+                s.float_comparisons += 2
+                if err(np.asarray(Rm_) @ np.asarray(Rm_).conj().T - np.eye(mm)) > tol / max(1.0, err(H1 @ H1)) * 10:
+                    s.violate('prepare_one_body_squared_evolution(%s matrix): basis transformation is not unitary' % k, c, {})
+                elif err(H1 @ H1 - rhs) > tol:
+                    s.violate('prepare_one_body_squared_evolution(%s matrix): (sum h a+a)^2 != sum V n n in the rotated basis '
+                              '(max deviation %.3g)' % (k, err(H1 @ H1 - rhs)), c, {})
+            except Exception as e:
+                s.violate('prepare_one_body_squared_evolution(%s matrix) raised %s: %s' % (k, type(e).__name__, e), c, {})
+
     # ---- RDM maps: argument integrity, numpy scalar particle numbers, complex64 tensors; (A) complex expectation values
     for t in range(N):
         n = rng.choice([2, 3])
@@ -971,13 +1060,13 @@ def stream_robust(ctx):
             op = of.InteractionOperator(const, o1.copy(), o2.copy())
             irdm = of.InteractionRDM(d['opdm'].copy(), d['tpdm'].copy())
             o1s, o2s, r1s, r2s = o1.copy(), o2.copy(), irdm.one_body_tensor.copy(), irdm.two_body_tensor.copy()
-            e1 = complex(irdm.expectation(op))
+            ev1 = complex(irdm.expectation(op))
             Hd = const * np.eye(2 ** n, dtype=complex) + dense_one_c(o1) + dense_two_c(o2)
             ref = np.vdot(psi, Hd @ psi)
             s.float_comparisons += 1
-            if abs(e1 - ref) > TOL * max(1.0, abs(ref)):
+            if abs(ev1 - ref) > TOL * max(1.0, abs(ref)):
                 s.violate('InteractionRDM.expectation with complex constant / non-Hermitian tensors = %r, <psi|H|psi> = %r'
-                          % (e1, complex(ref)), cc, {})
+                          % (ev1, complex(ref)), cc, {})
             if not (np.array_equal(op.one_body_tensor, o1s) and np.array_equal(op.two_body_tensor, o2s)
                     and np.array_equal(irdm.one_body_tensor, r1s) and np.array_equal(irdm.two_body_tensor, r2s)
                     and op.constant == const):
@@ -1016,6 +1105,41 @@ def replay(ctx, payload):
     inp = v['input']
     of = ctx.of
     try:
+        if str(inp.get('fn', '')).endswith('(dense oracle)'):
+            from openfermion.circuits import low_rank
+            from openfermion.chem.molecular_data import spinorb_from_spatial
+            k = inp['type']
+            tolk = SINGLE_TOL if k == 'float32' else TOL
+            if 'one_body_matrix' in inp:
+                hs = np.array(inp['one_body_matrix'], dtype=float)
+                V, R_ = low_rank.prepare_one_body_squared_evolution(typed_real(hs, k), spin_basis=inp['spin_basis'])
+                mm = hs.shape[0]
+                a_, ad_ = ladder(mm)
+                H1 = dense_one(hs)
+                b = [sum(R_[p_, q_] * a_[q_] for q_ in range(mm)) for p_ in range(mm)]
+                nb = [x.conj().T @ x for x in b]
+                rhs = sum(V[p_, q_] * nb[p_] @ nb[q_] for p_ in range(mm) for q_ in range(mm))
+                return bool(err(H1 @ H1 - rhs) <= tolk * max(1.0, err(H1 @ H1))
+                            and err(np.asarray(R_) @ np.asarray(R_).conj().T - np.eye(mm)) <= 10 * tolk)
+            n, spin, two = inp['n_spatial'], inp['spin_basis'], np.array(inp['two_body_integrals'], dtype=float)
+            h = spinorb_from_spatial(np.zeros((n, n)), two)[1] if spin else two
+            ht = typed_real(h, k)
+            lam, sq, corr, tv = low_rank.low_rank_two_body_decomposition(ht, final_rank=n * n, spin_basis=spin)
+            Href = dense_two(h) if spin else molecular_dense(0.0, np.zeros((n, n)), 2 * h)
+            R = dense_one_c(corr)
+            for l in range(len(lam)):
+                O = dense_one_c(sq[l])
+                R = R + lam[l] * O @ O
+            corr2, chem = low_rank.get_chemist_two_body_coefficients(ht, spin_basis=spin)
+            E = e1(2 * n)
+            Rc = dense_one_c(corr2)
+            for p_, q_, r_, s_ in itertools.product(range(n), repeat=4):
+                if chem[p_, q_, r_, s_] != 0:
+                    for sg in range(2):
+                        for tt_ in range(2):
+                            Rc = Rc + chem[p_, q_, r_, s_] * E[2 * p_ + sg, 2 * q_ + sg] @ E[2 * r_ + tt_, 2 * s_ + tt_]
+            tl = tolk * max(1.0, err(Href))
+            return bool(err(Href - R) <= tl and err(Href - Rc) <= tl)
         if 'type' in inp and 'index_type' in inp:
             # (T)/(S) record of the robust stream
             from openfermion.circuits import low_rank
@@ -1085,10 +1209,10 @@ def replay(ctx, payload):
             if inp.get('fn') == 'expectation':
                 o1, o2 = np.array(inp['one_body']), np.array(inp['two_body'])
                 op = of.InteractionOperator(inp['constant'], o1.copy(), o2.copy())
-                e1 = complex(of.InteractionRDM(d['opdm'].copy(), d['tpdm'].copy()).expectation(op))
+                ev1 = complex(of.InteractionRDM(d['opdm'].copy(), d['tpdm'].copy()).expectation(op))
                 Hd = inp['constant'] * np.eye(2 ** n, dtype=complex) + dense_one(o1) + dense_two(o2)
                 ref = np.vdot(psi, Hd @ psi)
-                ok = abs(e1 - ref) <= TOL * max(1.0, abs(ref))
+                ok = abs(ev1 - ref) <= TOL * max(1.0, abs(ref))
                 if n <= 3:
                     herm = of.InteractionOperator(inp['constant'], (o1 + o1.T) / 2, (o2 + o2.transpose(3, 2, 1, 0)) / 2)
                     e2 = complex(of.InteractionRDM(d['opdm'].copy(), d['tpdm'].copy()).expectation(of.jordan_wigner(herm)))
